@@ -6,6 +6,13 @@ open MdIt.Inline
 #check @parseLink_guard_free
 #check @skip_grow
 #check @parseLink_guard_grow
+#check @skip_entry_free
+#check @entry_total
+#check @parseInlineE_ok
+#check @entrySafe_memoSafe
+#check @parseInline_total_of_entrySafe
+#check @parseInline_total_of_entrySafe_coherent
+#check @closedB_iff
 #check @labelLoop_replay
 #check @labelLoop_records
 #check @pwalk_mono
@@ -13,6 +20,7 @@ open MdIt.Inline
 #check @pwalk_shrink_found
 #check @pwalk_frame
 #check @pwalk_level_le
+#check @pwalk_fuel
 #check @parseLink_records
 #check @parseLink_path
 #check @parseLink_frame_replay
@@ -22,12 +30,33 @@ open MdIt.Inline
 #check @frame_entry_closed_of_laminar
 #check @laminarB_iff
 #check @laminar_needs_coherence
+#check @ruleText_window
+#check @ruleNewline_window
+#check @ruleEscape_window
+#check @ruleAutolink_window
+#check @ruleEntity_window
+#check @ruleBackticks_window
+#check @parseInlineTail_window
+#check @decOk_unescapeAll
+#check @silent_declines
+#check @chain_declines_at_marker
+#check @skipStep_unit_at_marker
+#check @skipStep_records_link
+#check @parseLinkLabel_replay
+#check @parseLink_replay_inline
 
 #print axioms lookahead_guard_free
 #print axioms skip_guard_free
 #print axioms parseLink_guard_free
 #print axioms skip_grow
 #print axioms parseLink_guard_grow
+#print axioms skip_entry_free
+#print axioms entry_total
+#print axioms parseInlineE_ok
+#print axioms entrySafe_memoSafe
+#print axioms parseInline_total_of_entrySafe
+#print axioms parseInline_total_of_entrySafe_coherent
+#print axioms closedB_iff
 #print axioms labelLoop_replay
 #print axioms labelLoop_records
 #print axioms pwalk_mono
@@ -35,6 +64,7 @@ open MdIt.Inline
 #print axioms pwalk_shrink_found
 #print axioms pwalk_frame
 #print axioms pwalk_level_le
+#print axioms pwalk_fuel
 #print axioms parseLink_records
 #print axioms parseLink_path
 #print axioms parseLink_frame_replay
@@ -44,3 +74,17 @@ open MdIt.Inline
 #print axioms frame_entry_closed_of_laminar
 #print axioms laminarB_iff
 #print axioms laminar_needs_coherence
+#print axioms ruleText_window
+#print axioms ruleNewline_window
+#print axioms ruleEscape_window
+#print axioms ruleAutolink_window
+#print axioms ruleEntity_window
+#print axioms ruleBackticks_window
+#print axioms parseInlineTail_window
+#print axioms decOk_unescapeAll
+#print axioms silent_declines
+#print axioms chain_declines_at_marker
+#print axioms skipStep_unit_at_marker
+#print axioms skipStep_records_link
+#print axioms parseLinkLabel_replay
+#print axioms parseLink_replay_inline
